@@ -140,12 +140,17 @@ def _tree_cases(args):
                     detail = {"tree": tcase["desc"], "scheme": scheme, "imag": imag, "ncall": ncall}
                     out["cases"].append(json.dumps(detail))
                     try:
-                        t = trees.random_ttns(tcase, 64, (seed, "c12", ji), qntot=q)
+                        # a generic state of the sector; bonds are reduced to the exact ranks after every sum so that nodes with many
+                        # children never hold the product of the summands' bond dimensions (46 GB on a 5-node star otherwise)
+                        t = trees.random_ttns(tcase, 8, (seed, "c12", ji), qntot=q)
                         for j in range(3):
-                            t = t.add(trees.random_ttns(tcase, 64, (seed, "c12b", ji, j), qntot=q).scale(0.7 - 0.2 * j))
-                        t = t.add(ttno.apply(t).scale(0.6)).add(ttno.apply(ttno.apply(t)).scale(0.4))
-                        t.canonicalise()
-                        t.compress(temp_m_trunc=10 ** 6)
+                            t = t.add(trees.random_ttns(tcase, 8, (seed, "c12b", ji, j), qntot=q).scale(0.7 - 0.2 * j))
+                            t.canonicalise()
+                            t.compress(temp_m_trunc=10 ** 6)
+                        for j in range(2):
+                            t = t.add(ttno.apply(t).scale(0.6 - 0.2 * j))
+                            t.canonicalise()
+                            t.compress(temp_m_trunc=10 ** 6)
                         t = t.scale(1.0 / t.ttns_norm)
                         full = _is_full(t, u, mask, (seed, "full", ji))
                         if (ji + imag) % 2 and not imag:
